@@ -260,8 +260,23 @@ class Program:
             for b in j["bodies"]:
                 body = Body(self, c, b)
                 self.bodies[body.id] = body
-        for b in self.bodies.values():
+        # names of ordinary functions first; same-named items of sibling modules (sync_discovery / async_discovery)
+        # get the distinguishing module segment; closures and promoteds derive from their final parent name
+        plain = [b for b in self.bodies.values() if b.kind not in ("Closure", "Promoted")]
+        for b in plain:
             b.qname = self._qname(b)
+        groups = {}
+        for b in plain:
+            groups.setdefault(b.qname, []).append(b)
+        for q, bs in groups.items():
+            if len(bs) > 1:
+                for b in bs:
+                    segs = b.module.split("::")
+                    seg = segs[1] if len(segs) > 1 else "root"
+                    b.qname = b.qname.replace(b.crate + "::", "%s::[%s]::" % (b.crate, seg), 1)
+        for b in sorted(self.bodies.values(), key=lambda x: len(x.id)):
+            if b.kind in ("Closure", "Promoted"):
+                b.qname = self._qname(b)
         self.by_qname = {}
         for b in self.bodies.values():
             self.by_qname.setdefault(b.qname, []).append(b)
@@ -270,12 +285,13 @@ class Program:
         """line-number-free, impl-index-free display name used in reports and keys"""
         if b.kind == "Promoted":
             parent = self.bodies.get(b.id[:b.id.rfind("::promoted[")])
-            return (self._qname(parent) if parent is not None else b.id) + b.id[b.id.rfind("::promoted["):]
+            pq = (parent.qname or self._qname(parent)) if parent is not None else b.id
+            return pq + b.id[b.id.rfind("::promoted["):]
         if b.kind == "Closure":
             root = self.bodies.get(b.root)
             suffix = b.id[len(b.root):] if b.id.startswith(b.root) else "::{closure}"
             if root is not None:
-                return self._qname(root) + suffix
+                return (root.qname or self._qname(root)) + suffix
             return b.id
         if b.impl:
             st = short_ty(b.impl["self_s"])
@@ -312,7 +328,7 @@ class Program:
         out = []
         for b in self.bodies.values():
             if b.impl and b.impl["trait"] and b.impl["trait"].endswith(trait_suffix) and b.name == method \
-                    and b.kind != "Closure":
+                    and b.kind not in ("Closure", "Promoted"):
                 out.append(b)
         return out
 
